@@ -289,6 +289,39 @@ def audit_lp_meat(r, tag, fails, pre):
     return n
 
 
+def audit_increase(c, th, r, tag, fails, pre):
+    """the `increase` argument of the real call = max0((meat3 - meat1)/2 * k - const) / k (exact fractions),
+    meat1 / meat3 as handed to the round-1 / round-3 optimisers; b = the clipped round-2 biofuel total"""
+    from fractions import Fraction as Fr
+    key = "C18:topup-increase-differs-from-meat-gain@compute_parameters_third_round"
+    m1, m3 = unhex(th["meat1"]), unhex(th["meat3"])
+    lp = [x for x in r.get("lp_meat", []) if not x.get("capture_error")]
+    if len(lp) >= 3 and lp[0].get("add_meat") and lp[2].get("add_meat"):
+        h1, h3 = unhex(lp[0]["meat_monthly"]), unhex(lp[2]["meat_monthly"])
+        if h1 != m1 or h3 != m3:
+            fail(fails, key + ":meat-series", "monthly meat of round 1 / round 3 handed to the optimisers differs from the "
+                 "series the top-up was computed from", tag, real=tag)
+    k = Fr(10 ** 9) / Fr(unhex(th["days"])) / Fr(unhex(th["population"]))
+    const = Fr(100 if th.get("country") == "NZL" else 20)
+    pre["topup_calls"] += 1
+    pre["topup_positive_months"] += sum(1 for v in c["inc"] if v > 0)
+    if len(m1) != len(c["inc"]) or len(m3) != len(c["inc"]):
+        fail(fails, key, "lengths of the meat series and of the requested increase differ", tag, real=tag)
+        return 1
+    for m, (a, b, got) in enumerate(zip(m1, m3, c["inc"])):
+        x = (Fr(b) - Fr(a)) / 2 * k - const
+        want = (x if x > 0 else Fr(0)) / k
+        if abs(Fr(got) - want) > Fr(1, 10 ** 9) * abs(want) + Fr(1, 10 ** 12):
+            fail(fails, key, f"month {m}: increase handed to increase_biofuels_then_feed is {got!r} billion kcals, the meat "
+                 f"gain of the final round gives {float(want)!r} (meat3 {b!r}, meat1 {a!r}, population "
+                 f"{unhex(th['population'])!r}, const {int(const)})", tag, real=tag)
+            break
+    if th.get("biofuel_round2") is not None and not same(th["biofuel_round2"], hx(c["b"])):
+        fail(fails, "C18:handoff-identity@compute_parameters_third_round:biofuel-in",
+             "the biofuel series entering the top-up is not the (clipped) round-2 biofuel total", tag, real=tag)
+    return len(m1) + 1
+
+
 PIN_KEYS = ["meat", "outdoor_crops", "stored_food", "methane_scp", "cellulosic_sugar", "seaweed"]
 
 
@@ -355,7 +388,7 @@ def audit_real(real, fails, stats, doc_order):
     handoffs = 0
     pre = {"runs": 0, "bump_precondition_holds": 0, "inc_min": None, "round2_skipped": 0, "errors": 0,
            "retiming_moved_meat_runs": 0, "retiming_months_changed": 0, "lp_meat_compared": 0, "lp_meat_not_comparable": 0,
-           "pins_compared": 0, "pins_not_comparable": 0}
+           "pins_compared": 0, "pins_not_comparable": 0, "topup_calls": 0, "topup_positive_months": 0}
     for r in real:
         tag = {"country": r["country"], "option": r.get("option", {}), "threshold": r.get("threshold")}
         pre["runs"] += 1
@@ -406,6 +439,8 @@ def audit_real(real, fails, stats, doc_order):
             pre["inc_min"] = mi if pre["inc_min"] is None else min(mi, pre["inc_min"])
             n += check_bump(c, unhex(rec["nb"]), unhex(rec["nf"]), fails, stats, ":real")
             handoffs += 1
+            if th and th.get("had_round1"):
+                n += audit_increase(c, th, r, tag, fails, pre)
             if th:
                 n += 3
                 if not (same(th["feed"], rec["nf"]) and same(th["biofuel"], rec["nb"])):
